@@ -140,6 +140,11 @@ func c03Runes(thorough bool) []rune {
 	for r := rune(1); r < 0x300; r++ {
 		rs = append(rs, r)
 	}
+	for plane := rune(1); plane <= 16; plane++ { // the same 16-bit boundaries in every astral plane
+		for _, low := range []rune{0x0000, 0x07ff, 0x0800, 0xd7ff, 0xd800, 0xdbff, 0xdc00, 0xdfff, 0xe000, 0xfffd, 0xffff} {
+			rs = append(rs, plane<<16|low)
+		}
+	}
 	for _, r := range []rune{0x7ff, 0x800, 0xfff, 0x1000, 0x2028, 0x2029, 0xd7ff, 0xe000, 0xfeff, 0xfffd, 0xfffe, 0xffff, 0x10000, 0x10001, 0x1f600, 0xfffff, 0x100000, 0x10fffe, 0x10ffff} {
 		rs = append(rs, r)
 	}
